@@ -1074,6 +1074,11 @@ def rw_path_canaries(toks, rep, qual, ex=None, unit_ret=False):
 
 
 # proof-hint bookkeeping for tools/hint_deps.py: every anchored hint seen while building, and the one to leave out
+# item isolation (tools/run.py): functions / blocks whose BODY is outside the verifier's reach on the tree under test (type
+# errors, lost block anchors) are emitted as external_body stubs with their contract, so that the rest of the unit is still
+# decided; their own obligations are reported as undecided
+FORCE_STUB: set = set()
+ISOLATE_LOST_BLOCKS: list = [False]
 HINT_SITES: list = []
 ABLATE_HINT: list = [None]
 CALLPADS: list = []   # unit header `//! callpad: method N <text>`: a call `.method(a1..aN)` with exactly N arguments gets <text> appended
@@ -2025,8 +2030,34 @@ def _build_fn(sf: SourceFile, item: Item, impl, ex: Extract, props, rep, unit, a
     sig_toks = list(toks_all[item.start:item.hdr_end])
     body_toks = list(toks_all[item.hdr_end:item.end])   # includes braces
 
+    is_block_ = "block_from" in a or "block_back" in a or "block_arm" in a or "field_init" in a or "block_closure" in a or "block_last" in a
+    qual_full_ = qual + ("#" + (a.get("blockname") or "block") if is_block_ else "")
+    forced_ = qual_full_ in FORCE_STUB and a.get("mode") != "stub"
+    if is_block_ and not forced_ and ISOLATE_LOST_BLOCKS[0] and a.get("mode") != "stub":
+        try:
+            _extract_block(list(body_toks), a.get("block_from", ""), a.get("block_to"), a, [])
+        except AnchorLost as e_:
+            forced_ = True
+            rep.append(("ISOLATED", f"block anchor lost ({e_}): emitted as a stub"))
+    if forced_:
+        # body outside reach on this tree: signature + contract only (external_body); nothing of the proof script applies
+        import copy as _copy
+        a = dict(a); a["mode"] = "stub"; a["from_unit"] = "this unit (body outside the verifier's reach on this tree; its own obligations are undecided)"
+        ex = _copy.copy(ex)
+        ex.inserts = []; ex.entry = []; ex.exit_ = []; ex.closures = []; ex.locals_ = []; ex.desugar_for = []; ex.methodrenames = []
+        ex.replaces = [r_ for r_ in ex.replaces if r_[0] in ("sigreplace", "implreplace")]
+        ex.clauses = [c_ for c_ in ex.clauses if c_.loop == -1 and c_.kind in ("requires", "ensures")]
+        ex.rules = {r_ for r_ in ex.rules if r_ in ("R2",)}
+        body_toks = [T(PUNCT, "{"), T(PUNCT, "}")]
+        if is_block_:
+            sig_toks = lex(a["wrap"])
+            qual = qual_full_
+        if not any(r_[0] == "ISOLATED" for r_ in rep):
+            rep.append(("ISOLATED", "body does not type-check on this tree: emitted as a stub"))
+        is_block_ = False
+
     # optional: inline block extraction (R0 anchors)
-    if "block_from" in a or "block_back" in a or "block_arm" in a or "field_init" in a or "block_closure" in a or "block_last" in a:
+    if is_block_:
         body_toks = _extract_block(body_toks, a.get("block_from", ""), a.get("block_to"), a, rep)
         sig_toks = lex(a["wrap"])
         qual = qual + "#" + (a.get("blockname") or "block")
